@@ -456,6 +456,16 @@ class Fn:
                 p = op_place(r["o"])
                 if p is None:
                     return None
+                # a field of a tuple built just before (`let (a, b) = (&x[i..], &y[i..]);`): follow that component
+                fs = [e for e in p["p"] if isinstance(e, dict) and "f" in e]
+                if len(fs) == 1 and len(p["p"]) == 1:
+                    dt = self.unique_def(p["l"])
+                    if dt is not None and dt[0] == "stmt" and dt[3]["r"]["k"] == "agg" and not dt[3]["r"].get("adt") and int(fs[0]["f"]) < len(dt[3]["r"].get("ops", [])):
+                        q = op_place(dt[3]["r"]["ops"][int(fs[0]["f"])])
+                        if q is None:
+                            return None
+                        l = q["l"]
+                        continue
                 l = p["l"]
             elif r["k"] in ("ref", "copyderef", "rawptr"):
                 l = r["p"]["l"]
